@@ -178,6 +178,9 @@ def check_exit(ex: Exec, C: FnContract, env0, outcome, result: V, exc, res: FnRe
         st.trace.append('exit:return')
         for cl in C.ensures:
             ex.oblige('ensures', cl.label, ex.spec_bool(cl.expr, env), cl.tags)
+        for cl in getattr(C, 'probe_ensures', ()):
+            # checked at the exits of this body only; never offered to callers (must-fail probes)
+            ex.oblige('ensures', cl.label, ex.spec_bool(cl.expr, env), cl.tags)
     else:
         e = exc.exc
         env['raised'] = e
@@ -263,7 +266,10 @@ def _worker_path(args):
         if pid:
             import re as _re
             # only the clauses of the property being checked (and the untagged structural ones) are discharged
-            mine = [o for o in ex.obligations if pid in o.tags or not any(_re.fullmatch(r'C\d\d', t) for t in o.tags)]
+            if pid == 'VACUITY':
+                mine = [o for o in ex.obligations if 'VACUITY' in o.tags]       # the must-fail probe only
+            else:
+                mine = [o for o in ex.obligations if pid in o.tags or not any(_re.fullmatch(r'C\d\d', t) for t in o.tags)]
         obls = mine + (res.canaries if keep_canary else [])
         smt._OBLS, smt._AXIOMS, smt._TIMEOUT_MS = obls, axioms + smt.literal_axioms(), timeout_ms
         for i, ob in enumerate(obls):
